@@ -186,7 +186,7 @@ def random_cfg(rng, rich=True):
         c.type = rng.choice([T_UDP, T_UDP, T_TCP])
         if rng.random() < 0.15:
             c.xtype = rng.choice([T_TLS, T_DTLS])
-        c.secret = rbytes(rng, rng.choice([1, 7, 16, 17, 64, 65, 100])) if rng.random() < 0.5 else c.secret
+        c.secret = rbytes(rng, rng.choice([1, 7, 16, 17, 64, 65, 100, 256, 300])) if rng.random() < 0.5 else c.secret
         if rng.random() < 0.12:
             c.secret = b'Xy\x00' + rbytes(rng, 6)        # an escaped NUL octet is a legal part of a secret
         c.dupint = rng.choice([None, None, 0, 1, 2, 10, 255])
@@ -205,7 +205,7 @@ def random_cfg(rng, rich=True):
     for i in range(rng.randrange(1, 4)):
         s = Server(i, snames[i])
         s.type = rng.choice([T_UDP, T_UDP, T_TCP])
-        s.secret = rbytes(rng, rng.choice([1, 7, 16, 17, 64, 65, 100])) if rng.random() < 0.5 else s.secret
+        s.secret = rbytes(rng, rng.choice([1, 7, 16, 17, 64, 65, 100, 256, 300])) if rng.random() < 0.5 else s.secret
         if rng.random() < 0.12:
             s.secret = b'Xy\x00' + rbytes(rng, 6)
         s.statsrv = rng.choice([0, 0, 1, 2, 3])
